@@ -1,4 +1,4 @@
 """C11 — cache reads return only the latest live value of their own key."""
 from props import cachelib
 def run(ctx):
-    cachelib.run(ctx, "C11", [("register", 5), ("capacity", 2), ("ttl", 1), ("iter", 1)], 3600, 90000, stress=150)
+    cachelib.run(ctx, "C11", [("register", 5), ("capacity", 2), ("ttl", 1), ("iter", 1)], 3600, 60000, stress=150)
